@@ -1,6 +1,6 @@
 (* Properties_C01.v — C01: a checkpoint at any batch resumes the exact remaining stream (StatefulDataLoader).
    Model: SdlModel.v (multi-process iterator, state_dict, construction from a state dict), proofs: SdlMapProofs.v. *)
-From PD Require Import Base SdlModel SdlObs SdlMapProofs SdlIterWorker SdlIterScope SdlIterSmall2.
+From PD Require Import Base SdlModel SdlObs SdlMapProofs SdlIterWorker SdlIterScope SdlIterSmall2 SdlIterRef SdlIterProofs SdlIterResume.
 Open Scope list_scope. Open Scope nat_scope.
 
 (* map-style datasets, PROVED: for every configuration (num_workers > 0, prefetch_factor > 0, ANY snapshot interval, any
@@ -32,7 +32,8 @@ Proof. exact resume_good. Qed.
 Print Assumptions C01_map_resume_preserves_position.
 
 (* iterable datasets (worker-side dataset state, retirement of exhausted workers, fast-forward of stateless datasets): the
-   FULL statement is the target; it is not yet proved and is decided on every run by lockstep correspondence with real
+   FULL statement is the target; it is proved below for snapshot interval 0 and, for every interval, for the main-process side;
+   the rest is decided on every run by lockstep correspondence with real
    worker processes under scheduled arrival plus the direct oracle resumed = uninterrupted suffix. *)
 Definition C01_iter_statement : Prop :=
   forall c, c_kind c = KIter -> 0 < c_W c -> 0 < c_P c -> length (c_shards c) = c_W c -> c_bad c = [] -> c_stateful c = true ->
@@ -40,6 +41,35 @@ Definition C01_iter_statement : Prop :=
   let '(sk, _) := replay c k (sdl_fresh c) sched1 in
   let '(sr, sched') := sdl_resume c (state_dict sk) sched2 in
   outcomes c (S (length (reference c) - k)) sr sched' = map OBatch (skipn k (reference c)) ++ [OStop].
+
+(* iterable datasets, PROVED for every configuration with snapshot_every_n_steps = 0 (the state dict is then the initial snapshot
+   plus the number of steps): a checkpoint at ANY batch k, under EVERY arrival schedule of the interrupted run and EVERY arrival
+   schedule of the resumed run, resumes exactly batches k, k+1, ... then StopIteration (SdlIterResume.v) *)
+Theorem C01_iter_resume_exact_no_snapshots : forall c, c_kind c = KIter -> 0 < c_W c -> 0 < c_P c -> c_stateful c = true -> c_I c = 0 ->
+  forall k sched1 sched2, k <= length (reference c) ->
+  let '(sk, _) := replay c k (sdl_fresh c) sched1 in
+  let '(sr, sched') := sdl_resume c (state_dict sk) sched2 in
+  outcomes c (S (length (reference c) - k)) sr sched' = map OBatch (skipn k (reference c)) ++ [OStop].
+Proof. exact iter_resume_exact_I0. Qed.
+Print Assumptions C01_iter_resume_exact_no_snapshots.
+
+(* iterable datasets, ANY snapshot interval, the MAIN-process side of a resume, PROVED for every state dict d and EVERY arrival
+   schedule of the resumed run: if the per-worker entries of d restore workers whose remaining answers are the batch lists B
+   (workers_ok: queue empty, alive, future answers = B w from its first task on; one placeholder in front for the workers below
+   the start of the cycle), then the iterator built from d — workers restored, cycle started after the last yielded worker,
+   prefetch_factor * num_workers tasks put, the steps since the snapshot replayed — yields exactly the rest of the walk over B,
+   then StopIteration; no assertion fires.  What remains a target for snapshot intervals >= 1 is the WORKER-ENTRY half: that
+   the entries a run writes into its snapshots are the workers' states after their last yielded batch. *)
+Theorem C01_iter_resume_main_exact : forall c, c_kind c = KIter -> 0 < c_W c -> 0 < c_P c -> c_stateful c = true ->
+  forall (B : nat -> list (list nat)) (d : sdict),
+  workers_ok c B (S (sn_last (sd_snapshot d)) mod c_W c) (map (fun sv : wsave => wk_restored (fst sv, snd sv)) (sn_workers (sd_snapshot d))) ->
+  (forall w, w < c_W c -> a0 (S (sn_last (sd_snapshot d)) mod c_W c) w <= nb B w) ->
+  forall sched, sd_steps d <= length (refsuf (c_W c) B 0 (S (sn_last (sd_snapshot d)) mod c_W c)) ->
+  let '(sr, sched') := sdl_resume c d sched in
+  outcomes c (S (length (refsuf (c_W c) B 0 (S (sn_last (sd_snapshot d)) mod c_W c)) - sd_steps d)) sr sched' =
+  map OBatch (skipn (sd_steps d) (refsuf (c_W c) B 0 (S (sn_last (sd_snapshot d)) mod c_W c))) ++ [OStop].
+Proof. exact resume_main_exact. Qed.
+Print Assumptions C01_iter_resume_main_exact.
 
 (* PROVED building blocks of the iterable statement — the worker side: a worker restored from the (position, fetcher_ended)
    state that ANY of its answers carried gives, for every further task sequence, exactly the answers the original worker
